@@ -43,6 +43,21 @@ TEMPLATE_ALLOW = {
 TEMPLATE_FINDINGS = {}
 
 
+def _spliced_only_into_allowed(ctx, core, b, ctor):
+    """`b` is a token-building helper: every caller is a generator for which the unspanned `ctor`
+    is allowed (the fragment ends up in the same generated hook as before it was factored out)."""
+    if b.kind == "Closure":
+        return False
+    callers = set()
+    for c in ctx.all_bodies(core):
+        if scan.is_test_body(c):
+            continue
+        for blk, t in c.calls():
+            if mir.callee_of(t) == b.key:
+                callers.add(c.owner_fn or c.key)
+    return bool(callers) and all((c, ctor) in TEMPLATE_ALLOW for c in callers)
+
+
 def runtime_bodies(ctx, core):
     return [b for b in ctx.all_bodies(core) if not common.derive_file(b) and not scan.is_test_body(b) and not b.derived]
 
@@ -197,6 +212,8 @@ def run(ctx):
                         ctx.ob("C03.H.template-error-spanned", b.key, ev, True, "absence / whole-element verdict may be unspanned")
                     elif key in TEMPLATE_ALLOW:
                         ctx.ob("C03.H.template-error-spanned", b.key, ev, True, TEMPLATE_ALLOW[key])
+                    elif _spliced_only_into_allowed(ctx, core, b, ctor):
+                        ctx.ob("C03.H.template-error-spanned", b.key, ev, True, "helper whose tokens are spliced only into generators allowed for `%s`" % ctor)
                     elif key in TEMPLATE_FINDINGS:
                         ctx.ob("C03.H.template-error-spanned", b.key, ev, False, "%s: error about a present item is built unspanned in generated from_list although `__nested`/`__outer[0]` is in scope; it inherits the whole enum item's span" % TEMPLATE_FINDINGS[key])
                     else:
@@ -216,7 +233,7 @@ def run(ctx):
         txt = " ".join(T.render(T.root_streams()[-1])) if T.root_streams() else ""
         n = len(re.findall(r"\. map_err \( \| e \| e \. with_span \( & __inner \) \. at \(", txt))
         ctx.ob("C03.H.extractor-span-then-location", f.key, ".map_err(|e| e.with_span(&__inner).at(..))", n >= 2, "%d extractor templates end in with_span(&__inner).at(..)" % n)
-        ctx.ob("C03.H.duplicate-spanned", f.key, "duplicate_field(..).with_span(&__inner)", "duplicate_field ( ⟨&alloc::borrow::Cow<'_, alloc::string::String>⟩ ) . with_span ( & __inner )" in txt, txt[:200])
+        ctx.ob("C03.H.duplicate-spanned", f.key, "duplicate_field(..).with_span(&__inner)", "duplicate_field ( ⟨alloc::borrow::Cow<'_, alloc::string::String>⟩ ) . with_span ( & __inner )" in txt, txt[:200])
 
     # ------------------------------------------------------------ [B] derived: every extraction adds span + location
     pop = derived.population(ctx)
